@@ -100,7 +100,7 @@ def replay_sutton(model, case="no contaminants", fluid="dry gas"):
 
 def _plain_obligations(job, f, dom, want, p, dtype="f8"):
     n = len(p.d)
-    rkw = {"three": True} if n == 3 else {}
+    rkw = {"three": True} if n >= 3 else {}
     if dtype != "f8":
         rkw["dtype"] = dtype
     for name, (args, ref) in want.items():
@@ -264,18 +264,18 @@ def job_facade_oil_reassigned(job):
     job.prove("facade-oil/reach", dom, expect="sat")
 
 
-def job_facade_three(job, dtype="f8"):
+def job_facade_three(job, dtype="f8", n=3):
     """Three pressures in any order (sorted, unsorted, with repeats) through every facade method: one result per pressure,
     in the caller's order."""
     mod, gas, ufs = load_fluid_with_ufs()
     job.encoded(mod, "Fluid.water_FVF", "Fluid.water_viscosity", "Fluid.gas_FVF", "Fluid.gas_viscosity", "Fluid.oil_FVF", "Fluid.oil_viscosity")
     job.stub("stand-alone correlations imported by fluid.py: uninterpreted recording functions of their arguments")
-    job.bound(facade_array_length=3, order="any (no ordering assumed between the three pressures; equal pressures allowed)",
+    job.bound(facade_array_length=n, order="any (no ordering assumed between the three pressures; equal pressures allowed)",
               pressure_dtype={"f8": "float64", "i8": "int64 (whole psi)"}[dtype])
-    vs, dom = box(None, T=(60, 400), api=(10, 60), gg=("0.5", "1.5"), rsi=(0, 3000), S=(0, 25), Swi=(0, 1), p0=(15, 20000), p1=(15, 20000), p2=(15, 20000),
-                  Tpc=(-200, 100), ppc=(200, 1500))
+    vs, dom = box(None, T=(60, 400), api=(10, 60), gg=("0.5", "1.5"), rsi=(0, 3000), S=(0, 25), Swi=(0, 1), Tpc=(-200, 100), ppc=(200, 1500),
+                  **{f"p{k}": (15, 20000) for k in range(n)})
     f = mod.Fluid(vs["T"], vs["api"], vs["gg"], vs["rsi"], vs["S"], vs["Swi"])
-    p = SymArray([vs["p0"], vs["p1"], vs["p2"]], dtype)
+    p = SymArray([vs[f"p{k}"] for k in range(n)], dtype)
     T_, api, gg, rsi, S = (vs[k] for k in ("T", "api", "gg", "rsi", "S"))
     want = {
         "water_FVF": ((p,), lambda q: ufs["b_water_McCain"](T_, q)),
@@ -452,5 +452,6 @@ def jobs(tier):
     out = [("facade", job_facade), ("facade-three-pressures", job_facade_three), ("facade-three-pressures-int64", lambda j: job_facade_three(j, "i8")), ("table45", lambda j: job_table(j, 45)), ("sutton", job_sutton), ("unknown-fluid", job_unknown_fluid)]
     if tier != "quick":
         out.append(("table75", lambda j: job_table(j, 75)))
+        out.append(("facade-four-pressures", lambda j: job_facade_three(j, "f8", 4)))
         out.append(("table50", lambda j: job_table(j, 50)))
     return out
